@@ -173,10 +173,16 @@ def main():
     # 1. constants extracted from the source under test
     import extract
     try:
-        changed = extract.regenerate(args.repo)
+        changed, failures = extract.regenerate(args.repo)
         if changed:
             notes.append("Generated.lean rewritten from %s" % args.repo)
-    except Exception as e:  # source restructured: a broken tie
+        for g, msg in sorted(failures.items()):
+            # a constant group the extractor no longer understands is a broken tie of the properties that read it
+            if pid in extract.GROUPS[g][1]:
+                problems.append("extractor: constant group '%s' not found in the source (%s); baseline values used" % (g, msg))
+            else:
+                notes.append("extractor: group '%s' not extracted (%s); not read by %s" % (g, msg, pid))
+    except Exception as e:  # source unreadable: a broken tie
         problems.append("extractor: %s: %s" % (type(e).__name__, e))
 
     # 2. build
